@@ -42,6 +42,7 @@ CONSTANTS QLow,        \* QLow[l+1]  : integer b with 2^b <= Q_l        (l = 0..
           Elts,        \* Galois elements explored
           HasKeyFor(_),  \* which Galois elements have a key in the instance's key set
           SeedWords,   \* number of u64 words needed to store flag+seed (9)
+          PrimeOffset, \* number of data primes that even the last level keeps beyond the first one (0 for a full chain)
           TagMsgs      \* TRUE: handles remember which message they were encoded from (finer typestate classes)
 
 VARIABLES pool,     \* [CtSlots \cup PtSlots -> Handle]
@@ -53,7 +54,7 @@ IsBfv == Scheme = "bfv"
 IsBgv == Scheme = "bgv"
 IsCkks == Scheme = "ckks"
 DefaultNtt == ~IsBfv
-NPrimes(l) == l + 1          \* number of primes at level l (the special prime is not part of any data level)
+NPrimes(l) == l + 1 + PrimeOffset   \* number of primes at level l (the special prime is not part of any data level)
 
 (***************************************************************************)
 (* Scales (CKKS).  sc is the expression tree of the IEEE operations that   *)
@@ -550,8 +551,10 @@ SizeRule ==
 RefusalPure ==
   [][hist'[Len(hist')].v # "ok" => pool' = pool]_allvars
 
-\* the Balance transcription meets its post-condition on the whole domain
-BalanceOk == \A f1 \in 1..(T-1), f2 \in 1..(T-1) :
+\* the Balance transcription meets its post-condition (checked once, in the initial state, on the set S;
+\* it is state-level on purpose: TLC evaluates constant-level definitions eagerly at start-up)
+BalanceOkOn(S) == nsteps = 0 =>
+             \A f1 \in S, f2 \in S :
                LET r == Balance(f1, f2)
                IN /\ r.cf \in 1..(T-1) /\ r.e1 \in 1..(T-1) /\ r.e2 \in 1..(T-1)
                   /\ Mod(r.e1 * f1, T) = r.cf /\ Mod(r.e2 * f2, T) = r.cf
